@@ -12,7 +12,7 @@ import (
 //   - one-column schema: MarshalHCL -> EvalHCLBytes succeeds, SchemaDiff empty both ways,
 //     re-marshal gives the same bytes.
 func oracleType(w *out.W, o *dops, id string, g gtype, r *typeObs) {
-	if g.origin == "cross" {
+	if g.origin == "cross" || g.origin == "specx" {
 		return
 	}
 	desc := fmt.Sprintf("dialect=%s type=%s", o.name, showType(g.t))
